@@ -15,7 +15,7 @@ for p in props:
     pid = p["id"]
     e = src["checks"].get(pid)
     built = os.path.isdir(os.path.join(V, "harness", "cmd", pid.lower()))
-    if e and built and not e.get("withdrawn"):
+    if e and built and not e.get("withdrawn") and pid in src.get("ready", []):
         checks.append({
             "property_id": pid,
             "quick_cmd": "./check %s quick" % pid,
